@@ -13,12 +13,10 @@ def run(chk, st, tier):
         return
     files = R.make_files(chk, runner, shapes, rng, 42 if tier == "quick" else 400, name="C08-files")
     # large pages: 4096 int64/float64 values per page = exact multiples of the 32 KiB deflate window, 2 pages, every codec
-    fn = next((s for s in shapes if s.name == "flatnum"), None)
-    if fn:
-        from . import shapes as S
-        big = [Fm.Workload(fn, codec, 4096, ["G 2 I%d I%d" % (1000 + i % 97, 4607182418800017408 + (i % 5)) for i in range(8192)] + ["W"], "large-pages") for codec in (2, 1, 0)]
+    big = Fm.big_workloads(shapes, plans=((4096, 8192),) if tier == "quick" else ((4096, 8192), (6000, 9000)))
+    if big:
         lines_b = Fm.shape_lines(shapes) + [w.line("b%d" % i) for i, w in enumerate(big)]
-        impl_b, _, _, _ = C.run_cases(lines_b, "C08-big", impl_cmd=[runner])
+        impl_b, _, _, _ = C.run_cases(lines_b, "C08-big", impl_cmd=[runner], model_lines=[])
         for i, w in enumerate(big):
             pw = Fm.parse_write(impl_b.get("b%d" % i))
             if pw and "1" not in pw[0]:
